@@ -1,10 +1,10 @@
 #!/bin/bash
 # usage: tools/seedtest.sh <patch.diff> <PID>...  — apply a seeded patch to /repo, run checks, undo
 set -u
-patch=$1; shift
+patch=$(realpath $1); shift
 cd /repo || exit 3
 if ! git diff --quiet; then echo "/repo has uncommitted changes"; exit 3; fi
-if ! git apply --check "$patch" 2>/dev/null; then echo "PATCH DOES NOT APPLY"; exit 3; fi
+patch=$(realpath "$patch"); cd /repo; if ! git apply --check "$patch" 2>/dev/null; then echo "PATCH DOES NOT APPLY"; exit 3; fi
 git apply "$patch"
 cd /verif
 for p in "$@"; do ./vx check $p | grep -E "VIOLATION|UNDECIDED|KNOWN|tier=" | cut -c1-300; echo "  -> $p rc=${PIPESTATUS[0]}"; done
